@@ -29,6 +29,10 @@ func runC04(c *Ctx, tier string) {
 	cs := BuildCensus(c)
 	r.Floor("registrations", 370, len(cs.Regs))
 	freshInstances(c, r, cs)
+	// "a freshly CONFIGURED instance": MaybeConfigure hands the instance's own
+	// Configure() value to Configure/deserializeConfigInto on every path (no
+	// shortcut that skips resolving higher-scoped references) — C11's tables
+	c11Deserialise(c, r)
 	r.Finish()
 }
 
@@ -64,7 +68,8 @@ func recoverWrapper(c *Ctx, r *Report) {
 					ok, why = false, fmt.Sprintf("execute called with %v instead of (l, cert, config)", ev.Args)
 				}
 			case ev.Kind == "call" && ev.Name == "builtin:recover":
-			case ev.Kind == "call" && ev.Name == "fmt.Sprintf":
+			case ev.Kind == "call" && (ev.Name == "fmt.Sprintf" || ev.Name == "fmt.Sprint" || ev.Name == "fmt.Sprintln" || ev.Name == "fmt.Errorf" || strings.HasPrefix(ev.Name, "strings.") || strings.HasPrefix(ev.Name, "strconv.") || ev.Name == "invoke:Error" || ev.Name == "runtime/debug.Stack"):
+				// building the text of the Fatal result's Details
 			case ev.Kind == "store" || ev.Kind == "mapupdate":
 				ok, why = false, "wrapper writes to non-local memory: "+ev.String()
 			default:
